@@ -40,6 +40,7 @@ def run_campaign(chk, b, profiles, ncases, facets, sig_prefix, nontrivial_fn, ru
         stats["runs_with_an_injected_git_fault"] += r.get("faulted_runs", 0)
         stats["generator_discards"] += r.get("discarded", 0)
         stats["repositories_in_promisor_layout"] += 1 if r.get("promisor_layout") else 0
+        stats["runs_with_a_stalled_or_slow_stderr_reader"] += r.get("slow_stderr_runs", 0)
         stats["runs_with_stalling_children"] += r.get("stalled_runs", 0)
         stats["runs_with_for_each_ref_output_cut_mid_line"] += r.get("cut_ref_runs", 0)
         for s in r["samples"]:
@@ -162,3 +163,28 @@ def api_delay_stage(chk, b, keys, prefix, nrepos, tag=None, phase_totals=False):
             if rec["plan"] != "none":
                 chk.nontrivial(("apidelay", tuple(rec["repo"]), rec["plan"]))
     chk.cov["library_scans_with_paused_callbacks"] = dict(plans)
+
+
+def generic_fault_sweep(chk, b, prefix, argvs, seed_tag=None, refgroups=True, env=None):
+    """One generated repository (with refgroup configuration, so that the per-group `git config` children exist), and for
+    each argv the deterministic fault sweep of run.fault_sweep: a run that exits 0 although one of its git children failed
+    must print the fault-free bytes. Failing runs are C10's subject and are not judged here."""
+    import os
+    import random
+    import shutil
+    from .. import gen as G
+    rng = random.Random("gfs|%s|%d" % (seed_tag or prefix, R.SEED))
+    d = os.path.join(b.scratchdir(), "gfs-" + prefix.replace("/", "_"))
+    shutil.rmtree(d, ignore_errors=True)
+    os.makedirs(d)
+    m = G.random_model(rng, size="medium", hostile_names=False, noise=False)
+    if refgroups:
+        m.config = ('[refgroup "tags"]\n\tinclude = refs/heads\n[refgroup "mine"]\n\tname = Mine\n[refgroup "mine.a"]\n\tinclude = refs/heads\n'
+                    '[refgroup "mine.b"]\n\tincludeRegexp = refs/(tags|remotes)/.*\n[refgroup "solo"]\n\tinclude = refs\n\texclude = refs/heads\n')
+    gitdir = G.write_model(m, os.path.join(d, "repo"))
+    total = 0
+    for argv in argvs:
+        total += R.fault_sweep(chk, prefix, b.sizer(), gitdir, argv, b.shimdir(), d, env=env)
+    chk.cov["generic_fault_sweep"] = {"argvs": argvs, "faults_delivered": total}
+    shutil.rmtree(d, ignore_errors=True)
+    return total
